@@ -34,6 +34,7 @@ class Harness:
         self.functions = d.get('functions', [])
         self.assumes = d.get('assumes', [])
         self.tier = d.get('tier', 'quick')
+        self.also = d.get('also', [])          # other properties this harness also serves
         self.result = None                          # pass | fail | timeout | error | missing
         self.time_s = None
         self.checks = None
@@ -144,8 +145,19 @@ def run_unit(scratch, unit, harnesses, log_dir, extra_flags=(), timeout_s=3600):
     if unit.unwind:
         cmd += ['--default-unwind', str(unit.unwind)]
     cmd += list(unit.flags) + list(extra_flags)
+    # --harness matches substrings: pass fully qualified names with --exact
+    modof = {}
+    for a in unit.appends:
+        rel = a['file'].split('/src/', 1)[1]
+        parts = [x for x in rel[:-3].split('/') if x not in ('lib', 'mod', 'main')]
+        modname = a.get('modname', 'vx_' + re.sub(r'\W', '_', os.path.splitext(a['module'])[0]))
+        body = open(os.path.join(VERIF, 'contracts', 'kani', a['module'])).read()
+        for m in re.finditer(r'fn\s+(\w+)\s*\(', body):
+            modof.setdefault(m.group(1), '::'.join(parts + [modname]))
+    cmd += ['--exact']
     for h in harnesses:
-        cmd += ['--harness', h.name]
+        h.qualified = (modof.get(h.name, '') + '::' + h.name).lstrip(':')
+        cmd += ['--harness', h.qualified]
     env = dict(os.environ)
     env['CARGO_NET_OFFLINE'] = 'true'
     t0 = time.time()
@@ -271,7 +283,8 @@ def run_unit(scratch, unit, harnesses, log_dir, extra_flags=(), timeout_s=3600):
 def playback(scratch, unit, harness, log_dir):
     """Ask Kani for a concrete counterexample and replay it natively on the real code."""
     cmd = ['cargo', 'kani', '-p', unit.crate, '--target-dir', TARGET_DIR, '-Z', 'function-contracts',
-           '-Z', 'stubbing', '-Z', 'concrete-playback', '--concrete-playback=print', '--harness', harness.name]
+           '-Z', 'stubbing', '-Z', 'concrete-playback', '--concrete-playback=print', '--exact', '--harness',
+           getattr(harness, 'qualified', None) or harness.full_name or harness.name]
     if unit.unwind:
         cmd += ['--default-unwind', str(unit.unwind)]
     cmd += list(unit.flags)
